@@ -19,6 +19,8 @@ type Style struct {
 	MinimalParens bool
 	// Lexical enables separators/comments, keyword case, key/str/number forms.
 	Lexical bool
+	// NoTrailingSep suppresses the optional separator after the last token.
+	NoTrailingSep bool
 }
 
 func (st *Style) coin(n int) bool { return st != nil && st.R != nil && st.R.IntN(n) == 0 }
@@ -38,7 +40,9 @@ func Spell(p *Path, st *Style) string {
 		w.space()
 	}
 	w.top(p.Root)
-	w.sep0()
+	if st == nil || !st.NoTrailingSep {
+		w.sep0()
+	}
 	return sb.String()
 }
 
@@ -57,6 +61,9 @@ type speller struct {
 
 // Separators -----------------------------------------------------------
 
+// comments are complete C-style comments with awkward bodies.
+var comments = []string{"/* c */", "/**/", "/*/ x */", "/***/", "/* * / */", "/*\n*/", "/* \" */", "/*/*/", "/* /* looks nested */", "/*//*/", "/* $.a == 1 */", "/*\t*\t*/", "/* é 日本 */", "/*****/", "/*/**/", "/* '\\ */"}
+
 func (w *speller) ws() string {
 	switch w.st.R.IntN(8) {
 	case 0:
@@ -66,9 +73,9 @@ func (w *speller) ws() string {
 	case 2:
 		return "  "
 	case 3:
-		return "/* c */"
+		return comments[w.st.R.IntN(len(comments))]
 	case 4:
-		return " /**/ "
+		return " " + comments[w.st.R.IntN(len(comments))] + " "
 	case 5:
 		return "\r\n"
 	}
